@@ -68,7 +68,7 @@ func Properties() map[string]*PropertySpec {
 			Rules:      []string{"READ-SERVE", "CONFIRM-QUORUM", "READ-INDEX", "QUORUM-SHAPE"},
 			Thorough:   []string{"LEASE-RESET", "STATE-TRANSITIONS"},
 			Decided:    "reads are selected only by a leader that committed in its term, from lastApplied, only if readIndex ≤ applied and (linearizable ⇒ quorum-verified), and exactly the selected ones are applied; verification only on a quorum of replies from current voters of a still-leader, per-round counter; the recorded read index is the commit index only after a commit in the term, else the log end",
-			NotDecided: "that the confirming heartbeat round started after the read was registered (observation O1 in DESIGN.md: any in-flight round verifies all pending reads; no structural necessary condition exists, so nothing is armed); real-time order of histories",
+			NotDecided: "real-time order of histories; that the stamp/round scheme VERIFY-ROUND checks is the only correct design (another design is reported as undecided, not as a violation)",
 		},
 		{
 			ID:         "C06",
